@@ -15,7 +15,7 @@ import (
 // ---- strategy suite: the five real Strategy objects driven directly ----
 
 type StrOp struct {
-	K      string `json:"k"` // add rm flag act pick cpick jump
+	K      string `json:"k"` // add rm flag act pick cpick jump ctr (round-robin counter := Key)
 	ID     int    `json:"id,omitempty"`
 	W      int    `json:"w,omitempty"`
 	F      bool   `json:"f,omitempty"`
@@ -168,6 +168,12 @@ func runStrCase(c StrCase) (string, map[string]int) {
 			obs = append(obs, ZList(counts[1:]))
 			stats["cpick"]++
 			stats["cpick_goroutines"] += op.G
+		case "ctr":
+			if lbp.VerifSetRRCounter(s, op.Key) {
+				ops = append(ops, fmt.Sprintf("OCtr %d", op.Key))
+				obs = append(obs, "[]")
+				stats["ctr"]++
+			}
 		case "jump":
 			r := lbp.VerifJumpHash(op.Key, int32(op.N))
 			ops = append(ops, fmt.Sprintf("OJump %d %d", op.Key, op.N))
@@ -227,6 +233,18 @@ func strCorpus() []StrCase {
 		ops = append(ops, repOp(StrOp{K: "pick"}, 11)...)
 		out = append(out, StrCase{Kind: 2, Ops: ops})
 	}
+	// round robin across the 32-bit boundary of the rotation counter: windows stay exact for pool sizes that do not divide 2^32
+	for _, n := range []int{3, 5, 6, 7} {
+		ops := repOp(StrOp{K: "add", W: 1}, n)
+		ops = append(ops, StrOp{K: "pick"}, StrOp{K: "ctr", Key: 1<<32 - 11})
+		ops = append(ops, repOp(StrOp{K: "pick"}, 30)...)
+		ops = append(ops, StrOp{K: "flag", ID: 2, F: false}, StrOp{K: "ctr", Key: 1<<32 - 7})
+		ops = append(ops, repOp(StrOp{K: "pick"}, 20)...)
+		out = append(out, StrCase{Kind: 0, Ops: ops})
+	}
+	// weighted round robin, concurrent pickers on a fresh pool: exact totals (a pick is one critical section)
+	out = append(out, StrCase{Kind: 2, Ops: []StrOp{{K: "add", W: 5}, {K: "add", W: 2}, {K: "add", W: 1}, {K: "add", W: 3}, {K: "add", W: 1},
+		{K: "cpick", G: 8, M: 12 * 100}, {K: "cpick", G: 64, M: 12 * 25}, {K: "pick"}, {K: "pick"}, {K: "pick"}}})
 	// round robin, concurrent exact counts
 	out = append(out, StrCase{Kind: 0, Ops: []StrOp{{K: "add", W: 1}, {K: "add", W: 1}, {K: "add", W: 1}, {K: "cpick", G: 2, M: 3360}, {K: "cpick", G: 8, M: 840},
 		{K: "cpick", G: 64, M: 105}, {K: "pick"}, {K: "pick"}, {K: "pick"}, {K: "pick"}}})
@@ -349,6 +367,24 @@ func genStrCase(g *Rng, i int) StrCase {
 			}
 			// concurrent pickers only while every backend is eligible: with skipping, the number of
 			// counter ticks a concurrent phase consumes depends on the interleaving
+			if kind == 2 && p == 0 && len(flagOff) == 0 && g.Chance(25) {
+				w := 0
+				for _, o := range c.Ops {
+					if o.K == "add" {
+						w += o.W
+					}
+				}
+				// the stretch so far is not a whole number of periods in general: the model decides the exact counts; the
+				// monitor applies to fresh pools only
+				gor := []int{2, 4, 8, 32}[g.Intn(4)]
+				c.Ops = append(c.Ops, StrOp{K: "cpick", G: gor, M: w * g.Range(5, 40)})
+			}
+			if kind == 0 && g.Chance(15) {
+				c.Ops = append(c.Ops, StrOp{K: "ctr", Key: uint64(1)<<32 - uint64(g.Range(1, 40))})
+				for x := 0; x < 45; x++ {
+					c.Ops = append(c.Ops, pickOp())
+				}
+			}
 			if kind == 0 && len(flagOff) == 0 && g.Chance(40) {
 				gor := []int{2, 4, 8, 16, 64}[g.Intn(5)]
 				c.Ops = append(c.Ops, StrOp{K: "cpick", G: gor, M: 6720 / gor}) // 6720 = 64*105 is a multiple of every pool size 1..8
